@@ -17,6 +17,16 @@ import sys, json, copy, io, traceback
 
 SENT = '__c13_sentinel__'
 
+import uuid as _uuid
+_UC = [0]
+def _det_uuid4():
+    _UC[0] += 1
+    return _uuid.UUID(int=(0x5eed << 96) | _UC[0])
+_uuid.uuid4 = _det_uuid4
+def reset_random():
+    """random cell ids (nbformat's generate_corpus_id -> uuid.uuid4) are an environment input of the call: fix it"""
+    _UC[0] = 0
+
 def canon(x):
     return json.dumps(x, sort_keys=True, default=_dflt)
 
@@ -83,7 +93,7 @@ def ppconfig():
 
 def plain_diff(d):
     """the diff as it would arrive from JSON: fresh plain dicts/lists, then DiffEntry objects"""
-    from nbdime.diff_format import to_diffentry_dicts
+    from nbdime.diff_utils import to_diffentry_dicts
     return to_diffentry_dicts(json.loads(json.dumps(d)))
 
 def prepare(case):
@@ -167,6 +177,7 @@ def observe(case, want_shared=True):
     out = {'args': [n for n, _ in args]}
     res = None; raised = None
     try:
+        reset_random()
         res = f()
     except Exception as e:
         raised = e
@@ -179,6 +190,7 @@ def observe(case, want_shared=True):
         return out
     # recompute from the same objects
     try:
+        reset_random()
         res2 = f()
         if canon(res2) != canon(res): out['recompute_differs'] = True
     except Exception as e:
@@ -188,6 +200,7 @@ def observe(case, want_shared=True):
         out['modified'] += mod2
         out['modified_detail'] = dict(out.get('modified_detail', {}), **{n: {'before': before_c[n][:1500], 'after': canon(o)[:1500], 'on': 'second call'} for n, o in args if n in mod2})
     out['result_mutables'] = len(mutables(res))
+    out['arg_mutables'] = [len(mutables(o)) for _, o in args]
     if want_shared:
         sh = {}
         for n, o in args:
@@ -291,7 +304,7 @@ def run_outputs(t):
     finally:
         NB.copy = orig_copy_mod; NB.diff = orig_diff
     out['keys_a'] = list(a.keys()); out['keys_b'] = list(b.keys())
-    out['value_a'] = json.loads(canon(a)); out['value_b'] = json.loads(canon(b))
+    out['value_a'] = json.loads(ordered(a)); out['value_b'] = json.loads(ordered(b))
     out['unchanged'] = [canon(a) == before[0], canon(b) == before[1]]
     out['calls'] = calls
     return out
@@ -309,7 +322,7 @@ def run_patch_trace(t):
         out['err'] = type(e).__name__; out['msg'] = str(e)[:200]
         out['unchanged'] = [canon(a) == ba, canon(d) == bd]
         return out
-    out['ok'] = json.loads(canon(res))
+    out['ok'] = json.loads(ordered(res))
     out['shared_obj'] = maximal_shared(res, a)
     out['shared_diff'] = maximal_shared(res, d)
     out['unchanged'] = [canon(a) == ba, canon(d) == bd]
